@@ -215,6 +215,7 @@ func runProperty(p *Property, tier string, seed, workers int, only string, norep
 	}
 	known := loadKnown()
 	var results []instResult
+	var skipped []string
 	reached := map[string]int{}
 	var engineErrs []string
 	type vrec struct {
@@ -223,8 +224,15 @@ func runProperty(p *Property, tier string, seed, workers int, only string, norep
 	}
 	var viols []vrec
 	total := &sym.Summary{Ends: map[string]int{}, Truncated: map[string]int{}, Fns: map[string]int{}}
+	stopAll := false
 	for _, in := range insts {
 		if only != "" && !strings.Contains(in.String(), only) {
+			continue
+		}
+		if stopAll {
+			// a reportable violation was already found: the remaining instances are not needed
+			// for the verdict (and tend to be slow on a tree that violates the property)
+			skipped = append(skipped, in.String())
 			continue
 		}
 		h := eng.FindFunc(modPath + in.Pkg + "." + in.Fn)
@@ -255,6 +263,9 @@ func runProperty(p *Property, tier string, seed, workers int, only string, norep
 		}
 		for _, v := range sum.Violations {
 			viols = append(viols, vrec{in, v})
+			if matchKnown(known, p.ID, in, v) == nil {
+				stopAll = true
+			}
 		}
 		total.Paths += sum.Paths
 		total.Steps += sum.Steps
@@ -287,7 +298,7 @@ func runProperty(p *Property, tier string, seed, workers int, only string, norep
 		exit = 2
 	}
 	for _, lbl := range p.MustReach {
-		if reached[lbl] == 0 && only == "" {
+		if reached[lbl] == 0 && only == "" && !stopAll {
 			fmt.Printf("VACUOUS: reachability witness %q was never reached\n", lbl)
 			exit = 2
 		}
@@ -428,6 +439,7 @@ func runProperty(p *Property, tier string, seed, workers int, only string, norep
 			"solver":                        solverVersion(),
 			"load_and_ssa_build_s":          loadTime.Seconds(),
 			"engine_errors":                 engineErrs,
+			"instances_skipped_after_violation": skipped,
 			"known_findings_seen":           keys(knownSeen),
 		},
 		"assumptions": append([]string{
